@@ -311,19 +311,17 @@ Proof. intros Hne. unfold tail_ok. rewrite (last_app_ne_seg segs new Hne). tauto
 
 (* one iteration of the loop in build: the new level, as a record *)
 Lemma build_upper_step c ldk k r rl segs1 ln1 :
-  1 <= kbits (c_kt c) -> 1 <= c_par c -> 0 <= c_epsrec c -> c_epsrec c + 2 ^ 32 < 2 ^ 64 - 1 ->
-  lrec_ok c ldk k r -> 1 < lr_ln r -> zlen (below (r :: rl)) < 2 ^ 32 ->
+  1 <= kbits (c_kt c) -> 1 <= c_par c -> 0 <= c_epsrec c ->
+  lrec_ok c ldk k r -> 1 < lr_ln r -> lr_ln r + c_epsrec c < 2 ^ 64 - 1 ->
   let keys' := map sg_key (firstn (Z.to_nat (lr_ln r)) (lr_L r)) in
   level_float_ok c (c_epsrec c) keys' ldk k ->
   build_level c (c_epsrec c) keys' (lr_ln r) ldk (below (r :: rl)) = Ok (segs1, ln1) ->
   exists r', lrec_ok c ldk k r' /\ link c r r' /\ segs1 = below (r' :: r :: rl) /\ lr_ln r' = ln1.
 Proof.
-  intros Hb Hpar He0 He64 Hok Hln Hsz keys' Hfl H.
+  intros Hb Hpar He0 Hok Hln Hsz' keys' Hfl H.
   destruct (next_keys c ldk k r Hb Hok) as (Hl1 & Hl2 & Hz & Ek & Hss & Hko & Hhd). fold keys' in Hz, Ek, Hss, Hko, Hhd.
   assert (Hne' : keys' <> []) by (intros E; rewrite E in Hz; change (zlen (@nil Z)) with 0 in Hz; lia).
   pose proof (ssortedb_sorted _ Hss) as Hs'. pose proof (key_ok_nowrap _ _ Hb Hko) as Hw'.
-  assert (Hsz' : lr_ln r < 2 ^ 32).
-  { rewrite below_cons, zlen_app in Hsz. pose proof (zlen_ge0 (below rl)). lia. }
   rewrite <- Hz in H.
   destruct (build_level_desc _ _ _ _ _ _ _ H Hpar Hne' Hs' Hw' ltac:(lia))
     as (css & fed & cnt & g & new & T & M1 & M2 & Es & Hcat & F1 & F2 & He & Htail).
@@ -337,6 +335,9 @@ Proof.
   - unfold link. cbn [lr_keys lr_eps]. split; [reflexivity|]. split; [reflexivity | exact Hz].
   - rewrite Es, (below_cons (mkL _ _ _ _ _ _ _)). unfold lr_L. cbn [lr_new lr_T]. reflexivity.
 Qed.
+
+Lemma zlen_below_cons_ge0 r rl : zlen (lr_L r) <= zlen (below (r :: rl)).
+Proof. rewrite below_cons, zlen_app. pose proof (zlen_ge0 (below rl)). lia. Qed.
 
 Lemma build_upper_chain c ldk k :
   1 <= kbits (c_kt c) -> 1 <= c_par c -> 0 <= c_epsrec c -> c_epsrec c + 2 ^ 32 < 2 ^ 64 - 1 ->
@@ -370,7 +371,9 @@ Proof.
     assert (Hsz1 : zlen (below (r :: rl)) < 2 ^ 32).
     { rewrite Em2, Em1, !zlen_app in Hsz. pose proof (zlen_ge0 m1). pose proof (zlen_ge0 m2). lia. }
     assert (Hok : lrec_ok c ldk k r) by (cbn [chainR] in Hch; tauto).
-    destruct (build_upper_step c ldk k r rl segs1 ln1 Hb Hpar He0 He64 Hok ltac:(lia) Hsz1 Hfl1 E)
+    assert (Hln64 : lr_ln r + c_epsrec c < 2 ^ 64 - 1).
+    { destruct (next_keys c ldk k r Hb Hok) as (_ & Hl2 & _). pose proof (zlen_below_cons_ge0 r rl). lia. }
+    destruct (build_upper_step c ldk k r rl segs1 ln1 Hb Hpar He0 Hok ltac:(lia) Hln64 Hfl1 E)
       as (r' & Hok' & Hlink & Es1 & Eln1).
     subst ln1. rewrite Es1 in H, Hfl2.
     assert (Hch' : chainR c ldk k (r' :: r :: rl)) by (cbn [chainR]; cbn [chainR] in Hch; tauto).
@@ -379,7 +382,7 @@ Proof.
     intros Hne. specialize (U4 Hne). destruct up; cbn [app hd] in *; exact U4.
 Qed.
 
-Theorem build_chain c data ix k :
+Theorem build_chain_ext c data ix k :
   1 <= kbits (c_kt c) -> 1 <= c_par c -> 0 <= c_epsrec c -> c_epsrec c + 2 ^ 32 < 2 ^ 64 - 1 ->
   data <> [] -> sortedb data = true -> Forall (fun x => in_ktype (c_kt c) x = true) data ->
   last_z data < sentinel c -> zlen data + c_eps c < 2 ^ 64 - 1 ->
@@ -387,7 +390,10 @@ Theorem build_chain c data ix k :
   exists up r0,
     chainR c (last_z data) k (up ++ [r0]) /\ lr_keys r0 = data /\
     ix = mkIndex (zlen data) (hd 0 data) (below (up ++ [r0])) (offs_of (up ++ [r0])) /\
-    (c_epsrec c <> 0 -> lr_ln (hd r0 (up ++ [r0])) <= 1).
+    (c_epsrec c <> 0 -> lr_ln (hd r0 (up ++ [r0])) <= 1) /\
+    (extra_test c (zlen data) (last (lr_new r0) dseg) = true ->
+     sg_key (extra_seg c (last_z data) (zlen data)) <= k -> k < sentinel c ->
+     eval_ok c 1 0 (extra_seg c (last_z data) (zlen data)) k).
 Proof.
   intros Hb Hpar He0 He64 Hne Hs Hkt Hlast Hn64 [Hf0 Hfu] H Hsz.
   unfold build in H.
@@ -406,7 +412,7 @@ Proof.
   destruct (build_level_desc _ _ _ _ _ _ _ E2 Hpar Hne Hs Hw Hn64)
     as (css & fed & cnt & g & new & T & M1 & M2 & Es & Hcat & F1 & F2 & He & Htail).
   cbn [app] in Es, Htail.
-  destruct (Hf0 css fed cnt new M1 M2) as [Fev _].
+  destruct (Hf0 css fed cnt new M1 M2) as [Fev Fext].
   pose proof (Lv_of_Forall2 c (c_eps c) (EvalOK c k) css g new F1 F2 Fev) as HL.
   set (r0 := mkL data (c_eps c) css g new T ln).
   assert (Hok0 : lrec_ok c (last_z data) k r0).
@@ -418,5 +424,20 @@ Proof.
   rewrite <- Eo in E3, Hfu. rewrite <- Eb in E3, Hfu. change ln with (lr_ln r0) in E3, Hfu.
   destruct (build_upper_chain c (last_z data) k Hb Hpar He0 He64 _ [] r0 segsF offsF Hch0 Hfu E3 Hsz)
     as (up & U1 & U2 & U3 & U4).
-  exists up, r0. split; [exact U1|]. split; [reflexivity|]. split; [rewrite U2, U3; reflexivity | exact U4].
+  exists up, r0. split; [exact U1|]. split; [reflexivity|]. split; [rewrite U2, U3; reflexivity|]. split; [exact U4 | exact Fext].
+Qed.
+
+Theorem build_chain c data ix k :
+  1 <= kbits (c_kt c) -> 1 <= c_par c -> 0 <= c_epsrec c -> c_epsrec c + 2 ^ 32 < 2 ^ 64 - 1 ->
+  data <> [] -> sortedb data = true -> Forall (fun x => in_ktype (c_kt c) x = true) data ->
+  last_z data < sentinel c -> zlen data + c_eps c < 2 ^ 64 - 1 ->
+  float_ok c data k -> build c data = Ok ix -> zlen (ix_segments ix) < 2 ^ 32 ->
+  exists up r0,
+    chainR c (last_z data) k (up ++ [r0]) /\ lr_keys r0 = data /\
+    ix = mkIndex (zlen data) (hd 0 data) (below (up ++ [r0])) (offs_of (up ++ [r0])) /\
+    (c_epsrec c <> 0 -> lr_ln (hd r0 (up ++ [r0])) <= 1).
+Proof.
+  intros H1 H2 H3 H4 H5 H6 H7 H8 H9 H10 H11 H12.
+  destruct (build_chain_ext c data ix k H1 H2 H3 H4 H5 H6 H7 H8 H9 H10 H11 H12) as (up & r0 & A & B & C & D & _).
+  exists up, r0. tauto.
 Qed.
